@@ -706,6 +706,116 @@ theorem ctorOr_defined (a b : Opd) (out : Shape) (ha : a.mask.Fits a.shape) (hb 
   obtain ⟨m2, h2⟩ := this
   exact ⟨m2, by simp [run, h, h1, h2]⟩
 
+/-! ### definedness: broadcast-compatible operands never make the mask computation raise -/
+
+theorem suitableMask_false_of_fits (m : Mask) (s : Shape) (h : m.Fits s) : suitableMask false m s = some m := by
+  cases m with
+  | all b => rfl
+  | arr a => simp only [Mask.Fits] at h; simp [suitableMask, h]
+
+theorem setitemMask_fits (m : Mask) (shape : Shape) (s : Arr Bool) (hm : m.Fits shape) :
+    (setitemMask m shape s).Fits shape := by
+  cases m with
+  | all b => cases b <;> simp [setitemMask, Mask.Fits]
+  | arr a => simpa [setitemMask, Mask.Fits] using hm
+
+theorem remaskOr_defined (m sel : Mask) (shape : Shape) (hm : m.Fits shape) (hs : sel.Fits shape) :
+    ∃ r, remaskOr m shape sel = some r := by
+  obtain ⟨s, h1⟩ := suitableMask_defined true sel shape shape hs (bcast_self shape)
+  have fs := suitableMask_fits _ _ _ _ h1
+  obtain ⟨o, h2, ho⟩ := or_defined false m s shape shape shape hm fs (bcast_self shape)
+  have fo : o.Fits shape := by rcases ho with h | h | h <;> exact h
+  obtain ⟨r, h3⟩ := suitableMask_defined false o shape shape fo (bcast_self shape)
+  exact ⟨r, by simp [remaskOr, h1, h2, h3]⟩
+
+theorem maskWhere_defined (o : Opd) (sel : Mask) (replace : Bool) (hf : o.mask.Fits o.shape)
+    (hs : sel.Fits o.shape) : ∃ m, maskWhere o sel replace = some m := by
+  simp only [maskWhere, suitableMask_false_of_fits sel o.shape hs, Option.bind_some]
+  by_cases hany : sel.any = true
+  · simp only [hany, Bool.not_true, Bool.false_eq_true, if_false]
+    by_cases hshape : o.shape = []
+    · exact ⟨_, by rw [if_pos hshape]⟩
+    · rw [if_neg hshape]
+      cases replace with
+      | false => simpa using remaskOr_defined _ _ _ hf hs
+      | true =>
+        simp only [Bool.not_true, Bool.false_eq_true, if_false]
+        cases sel with
+        | all b => exact remaskOr_defined _ _ _ hf hs
+        | arr a => exact remaskOr_defined _ _ _ (setitemMask_fits _ _ _ hf) hs
+  · simp only [Bool.not_eq_true] at hany
+    exact ⟨o.mask, by simp [hany]⟩
+
+theorem maskWhere_fits (o : Opd) (sel m : Mask) (replace : Bool) (hf : o.mask.Fits o.shape)
+    (h : maskWhere o sel replace = some m) : m.Fits o.shape := by
+  simp only [maskWhere, Option.bind_eq_some_iff] at h
+  obtain ⟨sel', _, h⟩ := h
+  by_cases hany : sel'.any = true
+  · simp only [hany, Bool.not_true, Bool.false_eq_true, if_false] at h
+    by_cases hshape : o.shape = []
+    · rw [if_pos hshape] at h; cases h; trivial
+    · rw [if_neg hshape] at h
+      cases replace with
+      | false => simp only [Bool.not_false, if_true] at h; exact remaskOr_fits _ _ _ _ h
+      | true =>
+        simp only [Bool.not_true, Bool.false_eq_true, if_false] at h
+        cases sel' <;> exact remaskOr_fits _ _ _ _ h
+  · simp only [Bool.not_eq_true] at hany
+    simp only [hany, Bool.not_false, if_true, Option.some.injEq] at h
+    subst h; exact hf
+
+/-- a mask that fits an operand shape or the broadcast shape is accepted by the constructor -/
+theorem ctor_defined (m : Mask) (s0 s1 out : Shape) (hb : bcast s0 s1 = some out)
+    (hf : m.Fits s0 ∨ m.Fits s1 ∨ m.Fits out) : ∃ m', ctor m out = some m' := by
+  obtain ⟨ba, bb⟩ := bcast_absorb _ _ _ hb
+  simp only [ctor, or_, Bool.false_eq_true, if_false, Option.bind_some]
+  rcases hf with hf | hf | hf
+  · exact suitableMask_defined _ _ _ _ hf ba
+  · exact suitableMask_defined _ _ _ _ hf bb
+  · exact suitableMask_defined _ _ _ _ hf (bcast_self out)
+
+/-- division (the zero-replacement path) never raises for broadcast-compatible operands -/
+theorem divScalar_defined (a b : Opd) (out : Shape) (fail : Mask) (same : Bool)
+    (ha : a.mask.Fits a.shape) (hb : b.mask.Fits b.shape) (hf : fail.Fits b.shape)
+    (h : bcast a.shape b.shape = some out) :
+    ∃ m, run (.divScalar same) [a, b] fail = some (out, m) := by
+  obtain ⟨bm, h1⟩ := maskWhere_defined b fail true hb hf
+  have fbm := maskWhere_fits _ _ _ _ hb h1
+  obtain ⟨m1, h2, hfit⟩ := or_defined (same && !selAny b fail) a.mask bm _ _ _ ha fbm h
+  obtain ⟨m2, h3⟩ := ctor_defined m1 _ _ _ h hfit
+  exact ⟨m2, by simp [run, h, h1, h2, h3]⟩
+
+/-- the guarded functions (sqrt, log, exp, reciprocal) never raise -/
+theorem guard_defined (a : Opd) (fail : Mask) (ha : a.mask.Fits a.shape) (hf : fail.Fits a.shape) :
+    ∃ m, run .guard [a] fail = some (a.shape, m) := by
+  obtain ⟨m1, h1⟩ := maskWhere_defined a fail true ha hf
+  have f1 := maskWhere_fits _ _ _ _ ha h1
+  obtain ⟨m2, h2⟩ := ctor_defined m1 _ _ _ (bcast_self a.shape) (Or.inl f1)
+  exact ⟨m2, by simp [run, h1, h2]⟩
+
+/-- the power (array branch) never raises -/
+theorem powArr_defined (a b : Opd) (out : Shape) (fail : Mask) (same : Bool)
+    (ha : a.mask.Fits a.shape) (hb : b.mask.Fits b.shape) (hf : fail.Fits out)
+    (h : bcast a.shape b.shape = some out) :
+    ∃ m, run (.powArr same) [a, b] fail = some (out, m) := by
+  obtain ⟨m1, h1, hfit⟩ := or_defined same a.mask b.mask _ _ _ ha hb h
+  obtain ⟨ba, bb⟩ := bcast_absorb _ _ _ h
+  by_cases hany : fail.any = true
+  · -- or_ of m1 (fits a.shape, b.shape or out) with the failure array (fits out)
+    have : ∃ m2, or_ false m1 fail = some m2 ∧ (m2.Fits a.shape ∨ m2.Fits b.shape ∨ m2.Fits out) := by
+      rcases hfit with hm | hm | hm
+      · obtain ⟨m2, e, f⟩ := or_defined false m1 fail _ _ _ hm hf ba
+        exact ⟨m2, e, by rcases f with f | f | f <;> simp [f]⟩
+      · obtain ⟨m2, e, f⟩ := or_defined false m1 fail _ _ _ hm hf bb
+        exact ⟨m2, e, by rcases f with f | f | f <;> simp [f]⟩
+      · obtain ⟨m2, e, f⟩ := or_defined false m1 fail _ _ _ hm hf (bcast_self out)
+        exact ⟨m2, e, by rcases f with f | f | f <;> simp [f]⟩
+    obtain ⟨m2, h2, f2⟩ := this
+    obtain ⟨m3, h3⟩ := ctor_defined m2 _ _ _ h f2
+    exact ⟨m3, by simp [run, h, h1, hany, h2, h3]⟩
+  · obtain ⟨m3, h3⟩ := ctor_defined m1 _ _ _ h hfit
+    exact ⟨m3, by simp [run, h, h1, hany, h3]⟩
+
 /-! ### non-vacuity: concrete instances -/
 
 /-- a (2,3) operand with scalar False mask plus a (3,) operand with an array mask: the constructor
